@@ -222,7 +222,7 @@ pub fn run(ctx: &RunCtx) -> i32 {
         return 1;
     }
     let handle_io = ctx.tier == Tier::Thorough;
-    let (mut stats, mut failure) = run_sharded(ctx, "faults", ctx.tier.pick(400, 6000), strategy, |c, st, counting| test(c, st, counting, false));
+    let (mut stats, mut failure) = run_sharded(ctx, "faults", ctx.tier.pick(2500, 30_000), strategy, |c, st, counting| test(c, st, counting, false));
     if failure.is_none() && handle_io {
         let (s2, f2) = run_sharded(ctx, "faults-io", 2000, strategy, |c, st, counting| test(c, st, counting, true));
         stats.merge(s2);
